@@ -12,12 +12,14 @@ THEOREMS = ["C10.C10_range", "C10.C10_servable", "C10.C10_once_per_backoff", "C1
             "C10.C10_outlier_means_mixed", "C10.C10_membership_restores", "C10.C10_timer_bound", "C10.C10_outlier_loses", "C10.C10_converges_in_6"]
 RACE = False
 RULE = ("scenario = a Rebalancer (scripted meters, exported API only) over a RoundRobin with 1-6 servers of configured weight 0..5000, "
-        "driven by scripts of ratings (dyadic rationals: failing, recovering, flapping, all failing, exact ties at the cut), readiness "
+        "driven by scripts of ratings (failing, recovering, flapping, all failing, exact dyadic ties at the cut, general rationals), readiness "
         "flags, clock steps around the back-off and membership / weight changes, one real ServeHTTP per step; "
         "non-trivial = at least two weight adjustments made by requests, one of them with an outlier present")
-ASSUMPTIONS = ["ratings are finite float64 values; the scenarios use dyadic rationals (denominator 64, numerator < 2^12) on which the float64 arithmetic "
-               "of SplitFloat64 (sums, halves, x1.5) is exact, ties at the cut included; sub-ulp float behaviour is not modelled",
-               "ratings are >= 0 (failure ratios / latencies); with negative ratings every server can be rated an outlier, a case the property does not speak about",
+ASSUMPTIONS = ["ratings are finite float64 values, modelled by exact rationals. The scenarios use (a) dyadic rationals (denominator 64) on which the float64 "
+               "arithmetic of SplitFloat64 (sums, halves, x1.5) is exact, exact ties at the cut included, and (b) general rationals (denominators 3, 5, 7, 10, "
+               "100, 1000) every one of which is at least 2^-40 (relative) away from the cut at each request - readings that come closer are snapped to "
+               "multiples of 1/64 by the generator (an extra visible `rate` line); sub-ulp float behaviour is not modelled",
+               "ratings are >= 0 (failure ratios / latencies): C10_outlier_means_mixed; with negative ratings every server can be rated an outlier, a case the property does not speak about",
                "weights fit in Go int; the frozen clock only moves forward",
                "adjustWeights / UpsertServer / RemoveServer are atomic steps (Rebalancer.mtx held: C09 lock facts)"]
 TRUSTED = ["scripted Meter of harness/cmd/c02 (Rating/IsReady set by the scenario)"]
@@ -28,6 +30,23 @@ SEC = 10 ** 9
 
 def _srv(i):
     return "http s%d /" % i
+
+
+def _dyadic(f):
+    d = f.denominator
+    return d & (d - 1) == 0 and d <= 1 << 20 and abs(f.numerator) < 1 << 30
+
+
+def _float_safe(vals):
+    """float64 SplitFloat64 decides like exact arithmetic: all readings dyadic, or every reading at least
+    2^-40 (relative) away from the cut"""
+    if all(_dyadic(v) for v in vals) or not vals:
+        return True
+    nv = vals + [Fraction(0)] if len(vals) % 2 == 0 else list(vals)
+    m = _median(nv)
+    mad = _median([abs(v - m) for v in nv])
+    cut = (m + mad) * Fraction(3, 2)
+    return all(abs(v - cut) * (1 << 40) >= max(abs(v), abs(cut), Fraction(1, 1 << 20)) for v in vals)
 
 
 def gen(rng, tier):
@@ -45,10 +64,12 @@ def gen(rng, tier):
         else:
             pickw = lambda: rng.choice([0, 1, 2, 3, 5, 7, 64, 100, 1024, 1025, 4095, 4096, 4097, 5000])
         alive = set()
+        cur = {}      # current rating of every server's meter (a new meter starts at 0)
         for i in range(n):
             w = pickw()
             lines.append("upsert %s w=%d" % (_srv(i), w) if rng.random() < 0.9 else "upsert " + _srv(i))
             alive.add(i)
+            cur[i] = Fraction(0)
         lines.append("weights")
         long_ = tier == "thorough" and rng.random() < 0.1
         for _ in range(rng.randint(3, 12) * (8 if long_ else 1)):
@@ -65,10 +86,15 @@ def gen(rng, tier):
                 rate = {i: rng.choice([v, v, 3 * v // 2, 3 * v, 3 * v + 1, 0]) for i in alive}
             elif phase < 0.8:     # noise
                 rate = {i: rng.randint(0, 64) for i in alive}
+            elif phase < 0.9:     # general rationals (not exact in float64): kept away from the cut below
+                d = rng.choice([3, 5, 7, 10, 100, 1000])
+                rate = {i: Fraction(rng.randint(0, d), d) * 64 for i in alive}
             else:
                 rate = {}
             for i, v in rate.items():
-                lines.append("rate %s %d/64" % (_srv(i), v))
+                f = Fraction(v) / 64
+                cur[i] = f
+                lines.append("rate %s %d/%d" % (_srv(i), f.numerator, f.denominator))
             if rng.random() < 0.12 and alive:
                 lines.append("ready %s %d" % (_srv(rng.choice(sorted(alive))), rng.randint(0, 1)))
             if rng.random() < 0.15 and alive:
@@ -76,18 +102,28 @@ def gen(rng, tier):
                     lines.append("ready %s 1" % _srv(i))
             for _ in range(rng.randint(1, 8)):
                 lines.append("adv %d" % rng.choice([0, 1, B // 2, B - 1 if B > 1 else 0, B, B + 1, B + 1, 2 * B + 1, SEC + 1]))
+                if not _float_safe([cur[i] for i in alive]):
+                    # a non-dyadic rating within 2^-40 (relative) of the cut: float64 and exact arithmetic could
+                    # decide differently; snap the non-dyadic readings to multiples of 1/64 (nudged, not hidden)
+                    for i in sorted(alive):
+                        if not _dyadic(cur[i]):
+                            cur[i] = Fraction(round(cur[i] * 64), 64)
+                            lines.append("rate %s %d/%d" % (_srv(i), cur[i].numerator, cur[i].denominator))
                 lines.append("serve")
                 lines.append("weights")
             r = rng.random()
             if r < 0.12:
                 i = rng.randrange(n + 1)
                 lines.append("upsert %s w=%d" % (_srv(i), pickw()) if rng.random() < 0.8 else "upsert " + _srv(i))
+                if i not in alive:
+                    cur[i] = Fraction(0)
                 alive.add(i)
                 lines.append("weights")
             elif r < 0.2:
                 i = rng.randrange(n + 1)
                 lines.append("remove " + _srv(i))
                 alive.discard(i)
+                cur.pop(i, None)
                 lines.append("weights")
         yield lines
 
